@@ -268,6 +268,12 @@ func (r *Report) Finish(verifDir, evidencePath string) int {
 	}
 	seed := 0
 	fmt.Sscanf(os.Getenv("VERIF_SEED"), "%d", &seed)
+	if r.Assume == nil {
+		r.Assume = []string{}
+	}
+	if r.Trusted == nil {
+		r.Trusted = []string{}
+	}
 	ev := map[string]interface{}{
 		"property_id": r.Prop,
 		"tier":        r.Tier,
